@@ -20,7 +20,7 @@ EXTENDS Unparse, Json
 CONSTANT MaxPre
 
 NLT == Text(<<"NL">>)
-ItemNames == {"text", "blank", "crlf", "tag", "mltag", "dqstr", "bqstr", "mlcmt", "emit", "block", "loop", "cmtline", "bslnl", "bslnlbq", "escnl", "escbslnl"}
+ItemNames == {"text", "blank", "crlf", "tag", "mltag", "dqstr", "bqstr", "mlcmt", "emit", "block", "loop", "cmtline", "bslnl", "bslnlbq", "escnl", "escbslnl", "dotnum"}
 Item(n) ==
   CASE n = "text"  -> <<Text(<<"a", "NL">>)>>
     [] n = "blank" -> <<Text(<<"NL", "NL">>)>>
@@ -35,6 +35,8 @@ Item(n) ==
     \* literal text that shows plush code: an escaped tag opener directly followed by a line break; an escaped backslash before a live tag
     [] n = "escnl" -> <<EText(<<"BSL", "<", "PCT", "NL", "l", "e", "t", "NL", "PCT", ">", "NL">>, <<"<", "PCT", "NL", "l", "e", "t", "NL", "PCT", ">", "NL">>)>>
     [] n = "escbslnl" -> <<EText(<<"NL", "BSL", "BSL">>, <<"NL", "BSL">>), Emit(IntL(7)), NLT>>
+    \* a tag over several lines with a number written with a leading dot directly before a line break
+    [] n = "dotnum" -> <<OkTag(<<"<%", "NL", "let", " ", "h", "h", " ", "=", " ", ".", "5", "NL", "let", " ", "o", "o", " ", "=", " ", "1", "NL", "%>">>), NLT>>
     [] n = "mlcmt" -> <<Cmt(<<"c", "NL", "d">>), NLT>>
     [] n = "emit"  -> <<Emit(Str(<<"v">>)), Text(<<"NL">>)>>
     [] n = "block" -> <<Emit(If(Bool(TRUE), <<Text(<<"NL", "i", "NL">>), Emit(IntL(4)), NLT>>)), NLT>>
@@ -104,7 +106,7 @@ Fault(f) ==
     [] f = "eof_syn"      -> RawTag(<<"<%=", " ", "nosuch", "(", "QUOT", "a", "NL", "b">>)
 
 Places == {"top", "if", "else", "for", "for2", "fn", "blk", "afterblock", "aftermlblock", "afterfor", "partial", "aftercall", "aftercontentof", "afterpartial",
-           "afterretcall", "afterbrkcall", "topend"}
+           "afterretcall", "afterbrkcall", "topend", "blkinif", "blkinfn"}
 \* placements in which the fault is the right operand of + after a call that executed statements on other lines
 \* (afterretcall / afterbrkcall: the called function is left through an explicit return / its loop through a break)
 ExprPlaces == {"aftercall", "aftercontentof", "afterpartial", "afterretcall", "afterbrkcall"}
@@ -130,6 +132,11 @@ Placed(pl, FT) ==
                          rest |-> <<Let("g", FnLit(<<>>, <<Text(<<"NL">>), FT, Text(<<"NL">>)>>)), Text(<<"NL", "NL">>), Emit(Call("g", <<>>))>>, parts |-> EmptyScope]
     [] pl = "blk"    -> [lead |-> <<"NL">>,
                          rest |-> <<Emit(CallB("blk", <<>>, <<Text(<<"NL">>), FT>>))>>, parts |-> EmptyScope]
+    \* the helper call with the block is itself nested in an if body / a function body
+    [] pl = "blkinif" -> [lead |-> <<"NL", "NL">>,
+                         rest |-> <<Emit(If(Bool(TRUE), <<Text(<<"NL">>), Emit(CallB("blk", <<>>, <<Text(<<"NL">>), FT>>)), Text(<<"NL">>)>>))>>, parts |-> EmptyScope]
+    [] pl = "blkinfn" -> [lead |-> <<"NL", "NL">>,
+                         rest |-> <<Let("g", FnLit(<<>>, <<Text(<<"NL">>), Emit(CallB("blk", <<>>, <<Text(<<"NL">>), FT>>)), Text(<<"NL">>)>>)), Text(<<"NL", "NL">>), Emit(Call("g", <<>>))>>, parts |-> EmptyScope]
     [] pl = "afterblock" -> [lead |-> <<"NL">>,
                          rest |-> <<Emit(If(Bool(TRUE), <<Text(<<"x">>), Emit(IntL(1))>>)), Text(<<"NL">>), FT>>, parts |-> EmptyScope]
     [] pl = "aftermlblock" -> [lead |-> <<"NL", "NL", "NL">>,
